@@ -6,12 +6,18 @@ RULE = ("every acyclic ADMG(n) and ancestral ANC(n) graph, n<=3 quick / n<=4 tho
         "x<y for n=4, adjacent or not), every I inside R inside V-{x,y}, every candidate Z inside V-{x,y}; the n<=3 stream is "
         "repeated under the label families str (multi-character), tuple, char, frozenset, bigint; quick also every ANC(4) graph with an "
         "undirected edge; 60/600 seeded 5-6 node ancestral graphs with an undirected chain of >= 3 nodes; random graphs 5<=n<=7 with "
-        "3 pairs, random I inside R and every Z between I and R. distinct by (canonical graph, label family); non-trivial = "
+        "3 pairs, random I inside R and every Z between I and R. REPEAT stream (every n<=3 graph, a quarter of DAG(4)/ANC(4), a third of the 5-node "
+        "streams, 25 % of the random graphs): the object is first built for a neighbour graph with the same node and edge counts "
+        "(graphs.perturb), the same queries are run and discarded, the object is edited in place (graphs.morph) and only then judged; odd "
+        "seeds also query a copy(); 5-node streams: the two-chain DAG x->i->y, x->p->q->y under all 120 labelings and 150/1500 dense "
+        "5-node DAGs/ADMGs with non-empty I (some with frozenset arguments); custom edge-type names ('dir','bidir','undir') passed "
+        "explicitly on half of the n<=3 graphs, an eighth of the 4-node and random ones. distinct by (canonical graph, label family, "
+        "repeat seed, layer names, argument kind); non-trivial = "
         "some query has a non-empty minimal separator and some query has none")
 EXHAUSTIVE = {"quick": "ADMG(n), ANC(n) n<=3, DAG(4) and ANC(4) with an undirected edge: all (x,y), I<=R<=V-{x,y}, Z<=V-{x,y}", "thorough": "same, n<=4"}
 TRUSTED = ["networkx copy / remove_node / neighbors taken at face value",
            "judgement of the returned set is by the brute-force oracle msep_dec (n<=4..5) and by the C01 model msep_model (larger)"]
-ASSUMPTIONS = ["default edge-type names", "acyclic directed layer (domain of C01)", "I inside R inside V-{x,y} (quantifier of C11)"]
+ASSUMPTIONS = ["edge-type names: default, and one custom triple passed explicitly (beyond the quantifier of C11)", "acyclic directed layer (domain of C01)", "I inside R inside V-{x,y} (quantifier of C11)"]
 LEVEL_TEXT = ("Coq theorems about the executable model minsep_model / is_minsep_model (transcription of the code with the repairs of "
               "fix proposals C11-02, C11-03 built in, on top of the C01 model msep_model and the C12 model of the moral graph), all "
               "closed under the global context. UNBOUNDED (all graphs of the C01 domain, all sizes): minsep_sound (a returned Z has "
@@ -26,8 +32,9 @@ LEVEL_TEXT = ("Coq theorems about the executable model minsep_model / is_minsep_
               "exactness (full statements kept in C11/Spec.v); 4-node ADMG/ancestral graphs (thorough tier, exhaustive) and larger "
               "random graphs are covered by correspondence only. Label-type clause (x, y single nodes whatever their type): by "
               "correspondence under label families int, multi-character str, tuple, char, frozenset, bigint.")
-LEVEL_NOTE = ("on unchanged /repo the check reports VIOLATIONs (three genuine defects, fix proposals fixes/C11-01..03, to be applied in "
-              "order); with them quick and thorough tiers are green. is_minimal_m_separator raising NetworkXError for a call with "
+LEVEL_NOTE = ("genuine defects found: fix proposals fixes/C11-01..03 (applied to /repo as 0e536de, 56e830f, 52db66c) and C11-04 "
+              "(_anterior called without the caller's edge-type names: wrong answers on graphs with custom layer names); with them quick and "
+              "thorough tiers are green. is_minimal_m_separator raising NetworkXError for a call with "
               "I not inside Z or Z not inside R is accepted as 'not True'.")
 TECHNIQUE = ("Coq proof (soundness for all sizes: C01 theorem + anterior-restriction lemma by path induction) + bounded kernel computation over a verified finite enumeration with "
              "brute-force subset enumeration (n<=3; DAGs n=4) + refutation lemmas for the old behaviour + extracted-model "
@@ -108,12 +115,22 @@ def gen_cases(tier, rng):
                 yield c
     if tier == "quick":
         # one exhaustive 4-node class also in the quick tier (the Z' defect needs four nodes)
-        for g in gr.enum_dag(4):
-            yield {"kind": "dag4", "g": g, "qs": queries_all(g["V"], ordered=False), "oracle": True}
+        for j, g in enumerate(gr.enum_dag(4)):
+            c = {"kind": "dag4", "g": g, "qs": queries_all(g["V"], ordered=False), "oracle": True}
+            yield c
+            if j % 4 == 0:
+                yield dict(c, kind="dag4:rep", rep=3000 + j)
+            if j % 8 == 1:
+                yield dict(c, kind="dag4:names", names=CUSTOM_NAMES)
         # ... and every 4-node ancestral graph with an undirected edge (anterior closure over undirected edges)
-        for g in gr.enum_anc(4):
+        for j, g in enumerate(gr.enum_anc(4)):
             if g["U"]:
-                yield {"kind": "anc4", "g": g, "qs": queries_all(g["V"], ordered=False), "oracle": True}
+                c = {"kind": "anc4", "g": g, "qs": queries_all(g["V"], ordered=False), "oracle": True}
+                yield c
+                if j % 4 == 0:
+                    yield dict(c, kind="anc4:rep", rep=4000 + j)
+                if j % 8 == 1:
+                    yield dict(c, kind="anc4:names", names=CUSTOM_NAMES)
     # undirected chains: anterior nodes reachable only over two or more consecutive undirected edges
     for i in range(60 if tier == "quick" else 600):
         n = rng.randint(5, 6)
